@@ -3,7 +3,9 @@ package c14
 import (
 	"bytes"
 	"context"
+	"errors"
 	"github.com/cloudwego/hertz/pkg/app"
+	"github.com/cloudwego/hertz/pkg/protocol"
 
 	"fmt"
 	hserver "github.com/cloudwego/hertz/pkg/app/server"
@@ -921,6 +923,28 @@ func TestC14Regress(t *testing.T) {
 			}
 		}
 	}
+	// A request whose body stream failed remembers the error (the second Body() must not hand out the part). A new
+	// body given to the request afterwards is the body from then on: BodyE returns it, without the old error.
+	for name, set := range map[string]func(r *protocol.Request){
+		"SetBody":          func(r *protocol.Request) { r.SetBody([]byte("new body")) },
+		"SetBodyString":    func(r *protocol.Request) { r.SetBodyString("new body") },
+		"AppendBody":       func(r *protocol.Request) { r.AppendBody([]byte("new body")) },
+		"AppendBodyString": func(r *protocol.Request) { r.AppendBodyString("new body") },
+		"SwapBody":         func(r *protocol.Request) { r.SwapBody([]byte("new body")) },
+		"SetBodyRaw":       func(r *protocol.Request) { r.SetBodyRaw([]byte("new body")) },
+	} {
+		var r protocol.Request
+		r.SetBodyStream(io.MultiReader(strings.NewReader("part"), failingReader{}), -1)
+		_, err1 := r.BodyE()
+		set(&r)
+		b, err2 := r.BodyE()
+		rec.Case(true, ev.HashString("new-body-after-failed-stream", name), "regress-new-body-after-failed-stream")
+		if err1 == nil || err2 != nil || string(b) != "new body" {
+			bad := fmt.Sprintf("a request whose body stream failed (first BodyE: %v) is given a new body with %s: BodyE returns %q, %v (want \"new body\", nil)", err1, name, b, err2)
+			ev.Fail(prop, "regress", map[string]interface{}{"case": "new-body-after-failed-stream", "setter": name}, bad)
+			t.Errorf("%s", bad)
+		}
+	}
 	// Line ends that hertz accepts although they are not CRLF (a bare LF ends a trailer line as it ends a
 	// header line): whatever it accepts when the handler reads the stream to its end it has to accept the
 	// same way when it drains the rest behind a handler that stopped early. After POST /up the requests
@@ -957,3 +981,7 @@ func TestC14Regress(t *testing.T) {
 		}
 	}
 }
+
+type failingReader struct{}
+
+func (failingReader) Read(p []byte) (int, error) { return 0, errors.New("the peer went away") }
